@@ -50,7 +50,7 @@ GATES = {
     "header-monitors-ran": ["Block.hash", "Block.serialize", "Block.target", "Block.check_pow", "HeadersMessage.is_valid"],
     "bits-monitors-ran": ["bits_to_target", "target_to_bits", "calculate_new_bits"],
     "tree-shapes": ["tree:single-leaf", "tree:odd-level", "tree:power-of-two", "tree:right-child-missing-above-leaves"],
-    "object-reuse": ["reuse:same-object-validated-twice"],
+    "object-reuse": ["reuse:same-object-validated-twice", "reuse:validated-object-edited-then-validated"],
     "match-shapes": ["proof:none-matched", "proof:all-matched", "proof:single-match", "proof:last-leaf-of-odd-level-matched"],
     "honest-accepted": ["proof:honest-accepted"],
     "tamper-classes": ["tamper:" + t for t in TAMPERS],
@@ -623,6 +623,20 @@ def run_proof(ctx, hdr, total, hashes, flags, ids_be, honest_be, tamper):
                 _viol(ctx, "proof-verdict-depends-on-earlier-validation", f"first {v} second {v2}", {"op": "proof-raw", "raw": raw})
             if v2 == ("ok", True):
                 outcome(mb.proved_txs)
+            # edit history: the validated object's proof data altered in place, validated again - the verdict has
+            # to follow the data as it is now (decided by the is_valid contract, which snapshots the fields)
+            if tamper is None and v == ("ok", True) and mb.hashes:
+                k = hash(raw) % len(mb.hashes)
+                old = mb.hashes[k]
+                mb.hashes[k] = bytes([old[0] ^ 1]) + old[1:]
+                _state.update(tamper="hash-bit")
+                v3 = outcome(mb.is_valid)
+                ctx.count("reuse:validated-object-edited-then-validated")
+                ctx.monitor("proof-edit-history")
+                if v3 == ("ok", True):
+                    _viol(ctx, "altered-proof-validates-on-reused-object", "a hash of an already validated MerkleBlock object was changed in place and is_valid() still returned True", {"op": "proof-raw", "raw": raw})
+                mb.hashes[k] = old
+                _state.update(tamper=tamper)
         return v
     finally:
         _state.update(ids=None, honest=None, tamper=None)
